@@ -113,7 +113,7 @@ func GenProgram(t *rapid.T) *Node {
 	// most programs start with a few declarations so that calls, constructors and methods have targets
 	for i, n := 0, g.n(0, 3, "nprelude"); i < n; i++ {
 		g.budget++
-		prog.C = append(prog.C, g.stmtOf(pick(g, []string{"funcdecl", "funcdecl", "ctor", "ctor", "method-obj", "accessor-obj", "args-fn", "valueof-obj", "scope-shift"}, "prelude"), true)...)
+		prog.C = append(prog.C, g.stmtOf(pick(g, []string{"funcdecl", "funcdecl", "ctor", "ctor", "method-obj", "accessor-obj", "args-fn", "valueof-obj", "scope-shift", "var-shadowed"}, "prelude"), true)...)
 	}
 	prog.C = append(prog.C, g.stmts(g.n(2, 10, "ntop"), true)...)
 	// finish with an expression statement most of the time so that the completion value is interesting
@@ -159,7 +159,7 @@ func (g *G) stmt(declsAllowed bool) []*Node {
 		}
 	}
 	if declsAllowed && g.depth <= 3 {
-		choices = append(choices, "funcdecl", "funcdecl", "ctor", "method-obj", "accessor-obj", "args-fn", "valueof-obj", "scope-shift")
+		choices = append(choices, "funcdecl", "funcdecl", "ctor", "method-obj", "accessor-obj", "args-fn", "valueof-obj", "scope-shift", "var-shadowed")
 	}
 	if g.sc.inFunc {
 		choices = append(choices, "return", "return")
@@ -435,6 +435,33 @@ func (g *G) stmtOf(c string, declsAllowed bool) []*Node {
 			g.declare(fn, kFn)
 			return []*Node{pre, NS("funcdecl", fn, N("params", Id("u")), body),
 				ExprStmt(Call(Id("log"), Str("eval-shift"), Call(Id(fn), NS("bool", "false")), Call(Id(fn), NS("bool", "true")), Call(Id(fn), NS("bool", "false"))))}
+		}
+	case "var-shadowed":
+		// `var name = value` executed where a nearer scope already binds the name: the declaration is hoisted
+		// to the variable environment, the initialiser assigns through the lexical environment (12.2), so the
+		// with-object's property / the catch parameter is written and the hoisted variable stays undefined
+		name := pick(g, []string{"p", "q", "e"}, "vsname")
+		g.declare(name, kAny)
+		switch g.n(0, 3, "vsform") {
+		case 0, 1:
+			wo := g.fresh("wo")
+			g.declare(wo, kObj)
+			var mk *Node = N("obj", NS("prop", name, g.literal(kVal)))
+			if g.coin(40, "inherited") {
+				mk = Call(Dot(Id("Object"), "create"), mk)
+			}
+			var inner *Node = N("var", NS("decl", name, g.literal(kVal)))
+			if !g.NoEval && g.coin(30, "viaeval") {
+				inner = ExprStmt(&Node{K: "eval", S: "direct", C: []*Node{N("program", N("var", NS("decl", name, g.literal(kVal))))}})
+			}
+			return []*Node{N("var", NS("decl", wo, mk)),
+				N("with", Id(wo), Block(inner, ExprStmt(Call(Id("log"), Str("var-in-with"), Id(name))))),
+				ExprStmt(Call(Id("log"), Str("after-with"), Dot(Id(wo), name), &Node{K: "un", S: "typeof", C: []*Node{Id(name)}}, Id(name),
+					Call(Dot(Id(wo), "hasOwnProperty"), Str(name))))}
+		default:
+			return []*Node{N("try", Block(N("throw", g.literal(kVal))),
+				NS("catch", name, Block(N("var", NS("decl", name, g.literal(kVal))), ExprStmt(Call(Id("log"), Str("var-in-catch"), Id(name))))), Empty()),
+				ExprStmt(Call(Id("log"), Str("after-catch"), &Node{K: "un", S: "typeof", C: []*Node{Id(name)}}, Id(name)))}
 		}
 	case "args-fn":
 		// a function exercising the arguments object: aliasing, length, callee, extra/missing args
